@@ -354,6 +354,30 @@ func check(c *runner.Ctx, s work.Struct, h *genfrag.History) {
 	if !k.fail && !s.SegMode && lazy == 0 && len(k.b1) <= 512<<10 {
 		k.nodes(x, k.b1, 0)
 	}
+	// A second fresh instance of the same structure, driven in the opposite
+	// order: (Info first, sometimes) EncodeSW first, then Encode. Whatever
+	// call comes first, the bytes must be the same.
+	if y := s.New(); y != nil && !k.fail {
+		infoFirst := c.Rand.Bool()
+		if infoFirst {
+			if pi := c.Guard(func() { _ = y.Info(io.Discard, lv, "", "  ") }); pi != nil {
+				return
+			}
+		}
+		f1 := work.EncodeSW(c, y, 64)
+		f2 := work.EncodeW(c, y)
+		c.Count("reverse_order_twins", 1)
+		order := "EncodeSW first"
+		if infoFirst {
+			order = "Info(" + lv + ") then EncodeSW first"
+		}
+		if f1.OK() && !bytes.Equal(f1.Bytes, k.b1) && lengthClause {
+			p := firstDiff(k.b1, f1.Bytes)
+			k.violation("first-call-order-changes-bytes", typ, fmt.Sprintf("a fresh instance encoded with %s gives other bytes than a fresh instance encoded with Encode first: first difference at byte %d (lengths %d and %d)", order, p, len(f1.Bytes), len(k.b1)))
+		} else if f1.OK() && f2.OK() && !bytes.Equal(f1.Bytes, f2.Bytes) {
+			k.violation("encodesw-then-encode-differs", typ, fmt.Sprintf("%s, then Encode on the same instance: different bytes (first difference at %d)", order, firstDiff(f1.Bytes, f2.Bytes)))
+		}
+	}
 	if len(k.b1) >= 8 {
 		c.Nontrivial(runner.Hash64([]byte(s.Kind), k.b1))
 	}
